@@ -21,7 +21,7 @@ def compare(op, impl, model):
     if impl == model:
         return True
     kind = op.split(" ", 1)[0]
-    if kind not in ("fwd", "fwdg", "bout", "binto", "rfwd", "rbck"):
+    if kind not in ("fwd", "fwd2", "fwdg", "bout", "binto", "rfwd", "rbck"):
         return False
     a, b = impl.split(), model.split()
     if len(a) != len(b) or not a or "|" not in b[0]:
